@@ -226,7 +226,9 @@ pub fn pdom(c: u32, l: u32) -> Vec<P> {
 /// property owning the transition that produced them, and are never expanded)
 pub fn expand_ok(t: &Trans) -> bool {
     match t.outcome {
-        Ok((s, _, _)) => wellformed(s).is_empty(),
+        // very wide states (after DECCOLM) are judged but not expanded: they cost two orders of
+        // magnitude more memory per state and every operation treats columns uniformly
+        Ok((s, _, _)) => wellformed(s).is_empty() && s.columns <= 16,
         Err(_) => false,
     }
 }
